@@ -15,10 +15,12 @@ file, and prints the VIOLATION / KNOWN-FINDING lines of the interface.
 """
 import atexit
 import collections
+import functools
 import hashlib
 import json
 import multiprocessing
 import os
+import pickle
 import shutil
 import signal
 import sys
@@ -169,7 +171,9 @@ def fresh_dir(tag='s'):
 # worker side
 
 
-class Hang(Exception):
+class Hang(BaseException):
+    # not an Exception: library code under test that catches Exception (inspect.getfullargspec, Compiler.build, ...) must
+    # not be able to swallow the watchdog and turn it into a foreign-exception observation
     pass
 
 
@@ -222,6 +226,38 @@ def _run_task(arg):
     return idx, out
 
 
+def _run_forked(fn, item):
+    r, w = os.pipe()
+    pid = os.fork()
+    if pid == 0:
+        try:
+            os.close(r)
+            signal.setitimer(signal.ITIMER_REAL, 0)
+            try:
+                out = fn(item)
+            except BaseException:
+                out = {'internal': traceback.format_exc()}
+            with os.fdopen(w, 'wb') as f:
+                f.write(pickle.dumps(out))
+        finally:
+            os._exit(0)
+    os.close(w)
+    try:
+        with os.fdopen(r, 'rb') as f:
+            data = f.read()
+        os.waitpid(pid, 0)
+    except BaseException:
+        try:
+            os.kill(pid, signal.SIGKILL)
+            os.waitpid(pid, 0)
+        except OSError:
+            pass
+        raise
+    if not data:
+        return {'internal': 'forked task died without a result: %r' % (item,)}
+    return pickle.loads(data)
+
+
 def viol(identity, what, inputs=None, observed=None, expected=None):
     return {'id': identity, 'what': what, 'inputs': inputs, 'observed': observed, 'expected': expected}
 
@@ -234,10 +270,13 @@ def nproc():
     return n or min(16, os.cpu_count() or 4)
 
 
-def pmap(fn, items, budget=60.0, chunksize=None, jobs=None):
+def pmap(fn, items, budget=60.0, chunksize=None, jobs=None, fresh=False):
     """Ordered-by-index parallel map of `fn` over `items` in forked workers.
 
     Yields (index, result-dict).  `fn` must return a dict; see Run.absorb.
+    fresh=True: every item runs in a newly forked copy of the (pristine) parent process, so that what an item
+    leaves behind in module-level or class-level state (caches, memo tables) is seen by no other item.  Used by the
+    history layers, where the order of operations inside one item is the explored dimension.
     """
     global _TASK_FN, _TASK_BUDGET, _HANGS
     _TASK_FN = fn
@@ -246,7 +285,7 @@ def pmap(fn, items, budget=60.0, chunksize=None, jobs=None):
         _HANGS = multiprocessing.Value('i', 0)
     items = list(items)
     jobs = jobs or nproc()
-    if jobs <= 1 or len(items) <= 1:
+    if (jobs <= 1 or len(items) <= 1) and not fresh:
         for a in enumerate(items):
             yield _run_task(a)
         return
@@ -254,6 +293,10 @@ def pmap(fn, items, budget=60.0, chunksize=None, jobs=None):
         chunksize = max(1, min(64, len(items) // (jobs * 8) or 1))
     ctx = multiprocessing.get_context('fork')
     scratch_root()  # create before forking so that children share it
+    if fresh:
+        # the pool workers never run an item themselves: each item runs in a child forked from the worker, which is
+        # still an unused copy of the parent
+        _TASK_FN = functools.partial(_run_forked, fn)
     pool = ctx.Pool(jobs, initializer=_worker_init)
     try:
         for r in pool.imap_unordered(_run_task, list(enumerate(items)), chunksize):
@@ -351,9 +394,9 @@ class Run:
         if 'sample' in out:
             self.sample(out['sample'])
 
-    def run_tasks(self, fn, items, budget=60.0, chunksize=None, order_base=0):
+    def run_tasks(self, fn, items, budget=60.0, chunksize=None, order_base=0, fresh=False):
         n = 0
-        for idx, out in pmap(fn, items, budget=budget, chunksize=chunksize):
+        for idx, out in pmap(fn, items, budget=budget, chunksize=chunksize, fresh=fresh):
             self.absorb(order_base + idx, out)
             n += 1
         return n
